@@ -39,6 +39,13 @@ Theorem C15_md_refuted : forall A (render : ctable -> A), exists t, fst (md_expo
 Proof. exact md_pinned_refuted. Qed.
 Print Assumptions C15_md_refuted.
 
+(* small-scope sweep (bound: Readers.small_tables, 87 161 tables of <= 3 row elements with <= 2 cell runs each): the pinned
+   export is at least repeatable -- the second call finds the table as the first left it and gives the same answer *)
+Theorem C15_md_pinned_repeatable_small : forall A (render : ctable -> A) t, In t small_tables ->
+  md_export_pinned A render (fst (md_export_pinned A render t)) = md_export_pinned A render t.
+Proof. exact md_pinned_repeatable_small. Qed.
+Print Assumptions C15_md_pinned_repeatable_small.
+
 (* repaired export (works on a clone): pure, repeatable, and the text produced is the one the pinned code produced *)
 Theorem C15_md_fixed_pure : forall A (render : ctable -> A) t,
   fst (md_export_fixed A render t) = t /\
